@@ -43,12 +43,17 @@ type desc struct {
 	Seq     bool        `json:"sequential,omitempty"`   // the sequential entry point on the same input (pool size unused)
 	Default bool        `json:"default_pool,omitempty"` // entry point without pool size (runtime.NumCPU() workers)
 	Large   bool        `json:"large,omitempty"`        // judged through the run-length summary (CLarge)
+	Mesh    int         `json:"mesh,omitempty"`         // mesh variant: topology, index buffer, extra attributes (mesh.go meshVariants)
+	Conc    int         `json:"conc,omitempty"`         // >= 2: that many goroutines call the entry point on the same mesh at once
+	Retain  int         `json:"retain,omitempty"`       // modify: result read back after that many further calls on other meshes
 	Gosched int         `json:"gosched,omitempty"`      // callback yields on every k-th index
 	Procs   int         `json:"gomaxprocs,omitempty"`   // 0 = leave the default
 	Reps    int         `json:"reps,omitempty"`         // repetitions; every distinct observation becomes a case
 	Fields  []fieldDesc `json:"fields,omitempty"`
 	NFun    int         `json:"nfun,omitempty"`
 	Cutoff  float64     `json:"cutoff,omitempty"`
+	CPU     float64     `json:"cpu,omitempty"`        // marching cases: cubes per unit of the canvases (0 = 1)
+	MAttr   int         `json:"march_attr,omitempty"` // marching cases: attribute marched (0 = March/MarchParallel, k = MarchOnAttribute[Parallel]("a<k>"))
 	NoMarch bool        `json:"no_march,omitempty"` // marching cases: only AddField vs AddFieldParallel
 	Seam    bool        `json:"seam,omitempty"`     // marching cases: surface extremes placed around a block border
 	ParOnly bool        `json:"par_only,omitempty"` // marching cases for the -race binary: parallel variants only
@@ -84,7 +89,19 @@ type wresult struct {
 
 // ---------------------------------------------------------------- Coq rendering
 func obsCoq(o obs) string {
-	return fmt.Sprintf("{| o_cnt := %s; o_val := %s; o_oob := %s |}", hx.CoqListN(u64(o.cnt)), hx.CoqListN(o.val), hx.CoqListZ(o.oob))
+	return fmt.Sprintf("{| r_cnt := %s; r_val := %s; r_oob := %s |}", coqInts(u64(o.cnt)), coqInts(o.val), hx.CoqListZ(o.oob))
+}
+
+// primitive 63-bit integers (Check/C10.v robs): one kernel node per literal
+func coqInts(xs []uint64) string {
+	ys := make([]uint64, len(xs))
+	for i, x := range xs {
+		if x > 1<<62 {
+			x = 1 << 62 // far above every legitimate code: still a wrong value, and still a valid literal
+		}
+		ys[i] = x
+	}
+	return hx.CoqListN(ys) + "%uint63"
 }
 func u64(xs []int64) []uint64 {
 	out := make([]uint64, len(xs))
@@ -95,13 +112,14 @@ func u64(xs []int64) []uint64 {
 }
 
 func entryRun(d desc, mode int) outcome {
+	opt := callOpts{variant: d.Mesh, conc: d.Conc, retain: d.Retain}
 	switch d.Entry {
 	case "scan":
-		return runScan(d.Arity, d.Salt, d.N, d.S, mode, d.Gosched)
+		return runScan(d.Arity, d.Salt, d.N, d.S, mode, d.Gosched, opt)
 	case "modify":
-		return runModify(d.Arity, d.Salt, d.N, d.S, mode, d.Gosched)
+		return runModify(d.Arity, d.Salt, d.N, d.S, mode, d.Gosched, opt)
 	default:
-		return runPrims(d.Topo, d.Salt, d.NIdx, d.NVerts, d.S, mode, d.Gosched)
+		return runPrims(d.Topo, d.Salt, d.NIdx, d.NVerts, d.S, mode, d.Gosched, opt)
 	}
 }
 
@@ -126,7 +144,7 @@ func sameU64(a, b []uint64) bool {
 
 // Go-side verdict used by the race worker and for large cases
 func idealOutcome(d desc, o outcome) bool {
-	if o.panicked != "" || len(o.o.oob) != 0 || !o.kept {
+	if o.panicked != "" || len(o.o.oob) != 0 || !o.kept || !o.rest {
 		return false
 	}
 	for i := range o.o.cnt {
@@ -169,11 +187,11 @@ func meshCase(d desc) wcase {
 		}
 		switch d.Entry {
 		case "scan":
-			w.Coq = fmt.Sprintf("CSeqScan %d%%nat %d %d%%nat %s", d.Arity, d.Salt, d.N, obsCoq(o.o))
+			w.Coq = fmt.Sprintf("CSeqScan %d%%nat %d %d%%nat %s %s", d.Arity, d.Salt, d.N, obsCoq(o.o), hx.CoqBool(o.rest && o.kept))
 		case "modify":
-			w.Coq = fmt.Sprintf("CSeqMod %d%%nat %d %d%%nat %s %s %s", d.Arity, d.Salt, d.N, obsCoq(o.o), hx.CoqListN(o.out), hx.CoqBool(o.kept))
+			w.Coq = fmt.Sprintf("CSeqMod %d%%nat %d %d%%nat %s %s %s %s", d.Arity, d.Salt, d.N, obsCoq(o.o), coqInts(o.out), hx.CoqBool(o.kept), hx.CoqBool(o.rest))
 		default:
-			w.Coq = fmt.Sprintf("CSeqPrims %d%%nat %d %d%%nat %d%%nat %s", d.Topo, d.Salt, d.NIdx, d.NVerts, obsCoq(o.o))
+			w.Coq = fmt.Sprintf("CSeqPrims %d%%nat %d %d%%nat %d%%nat %s %s", d.Topo, d.Salt, d.NIdx, d.NVerts, obsCoq(o.o), hx.CoqBool(o.rest && o.kept))
 		}
 		return w
 	}
@@ -212,7 +230,7 @@ func meshCase(d desc) wcase {
 				bad += len(par.out) - d.N
 			}
 		}
-		if !par.kept {
+		if !par.kept || !par.rest {
 			bad++
 		}
 		same := par.o.equal(seq.o) && sameU64(par.out, seq.out) && par.panicked == seq.panicked
@@ -225,12 +243,12 @@ func meshCase(d desc) wcase {
 	}
 	switch d.Entry {
 	case "scan":
-		w.Coq = fmt.Sprintf("CScan %d%%nat %d %d%%nat %d%%nat %s", d.Arity, d.Salt, d.N, s, obsCoq(par.o))
+		w.Coq = fmt.Sprintf("CScan %d%%nat %d %d%%nat %d%%nat %s %s", d.Arity, d.Salt, d.N, s, obsCoq(par.o), hx.CoqBool(par.rest && par.kept))
 	case "modify":
-		w.Coq = fmt.Sprintf("CMod %d%%nat %d %d%%nat %d%%nat %s %s %s", d.Arity, d.Salt, d.N, s, obsCoq(par.o),
-			hx.CoqListN(par.out), hx.CoqBool(par.kept))
+		w.Coq = fmt.Sprintf("CMod %d%%nat %d %d%%nat %d%%nat %s %s %s %s", d.Arity, d.Salt, d.N, s, obsCoq(par.o),
+			coqInts(par.out), hx.CoqBool(par.kept), hx.CoqBool(par.rest))
 	default:
-		w.Coq = fmt.Sprintf("CPrims %d%%nat %d %d%%nat %d%%nat %d%%nat %s", d.Topo, d.Salt, d.NIdx, d.NVerts, s, obsCoq(par.o))
+		w.Coq = fmt.Sprintf("CPrims %d%%nat %d %d%%nat %d%%nat %d%%nat %s %s", d.Topo, d.Salt, d.NIdx, d.NVerts, s, obsCoq(par.o), hx.CoqBool(par.rest && par.kept))
 	}
 	return w
 }
@@ -371,6 +389,15 @@ var entries = []desc{
 	{Entry: "prims", Topo: 0}, {Entry: "prims", Topo: 1}, {Entry: "prims", Topo: 2},
 }
 
+// mesh variant k for an entry point: the attribute entry points meet all of mesh.go's variants, the primitive
+// scans meshes without (0) and with (1, 2) further attributes
+func meshVariant(e desc, k int) int {
+	if e.Entry == "prims" {
+		return k % 3
+	}
+	return k % meshVariants
+}
+
 func instantiate(e desc, n, s, variant int) desc {
 	if e.Entry == "prims" {
 		return primsDesc(e.Topo, n, s, variant)
@@ -406,6 +433,41 @@ func fixedMarch() []desc {
 		// empty canvas: both variants panic with the declared error
 		m(0, surfaceOffset),
 	}
+}
+
+// ---- several attributes / other resolutions ------------------------------------------------------------------
+// Attribute k >= 1 of a field is the plane x + 2y + 3z + k + 0.5 (march.go); marched at the value it takes in the
+// middle of the field's box it gives a surface through every block the box spans.
+func planeCutoff(f fieldDesc, k int) float64 {
+	return float64(f.C[0]) + 2*float64(f.C[1]) + 3*float64(f.C[2]) + float64(k) + 0.5
+}
+
+func attrMarch(thorough bool) []desc {
+	var out []desc
+	a := sphereField([3]int{85, 10, 10}, [3]int{115, 40, 40}, 21)   // blocks (0,0,0) and (1,0,0)
+	b := sphereField([3]int{30, 80, 20}, [3]int{60, 120, 50}, 25)   // blocks (0,0,0) and (0,1,0)
+	c := sphereField([3]int{-20, -20, 10}, [3]int{15, 15, 40}, 21)  // blocks (-1,-1,0) .. (0,0,0)
+	b2, c3 := b, c
+	b2.NFun, c3.NFun = 2, 3
+	// the marched attribute owns block (0,0,0) and shares the canvas' block store with two other attributes
+	out = append(out, desc{Entry: "march", NFun: 3, Cutoff: surfaceOffset, Fields: []fieldDesc{a}})
+	// the second attribute is marched; a later field introduces it
+	out = append(out, desc{Entry: "march", NFun: 1, Cutoff: planeCutoff(b, 1), MAttr: 1, Fields: []fieldDesc{a, b2}})
+	// default attribute marched on the same canvas
+	out = append(out, desc{Entry: "march", NFun: 1, Cutoff: surfaceOffset, Fields: []fieldDesc{a, b2}})
+	// three attributes over negative and positive blocks, the last one marched
+	out = append(out, desc{Entry: "march", NFun: 1, Cutoff: planeCutoff(c, 2), MAttr: 2, Fields: []fieldDesc{c3, a}})
+	// an attribute the canvas does not hold: both variants panic with the declared error
+	out = append(out, desc{Entry: "march", NFun: 1, Cutoff: 0, MAttr: 2, Fields: []fieldDesc{sphereField([3]int{10, 10, 10}, [3]int{30, 30, 30}, 15)}})
+	// two cubes per unit: the box [42,58]x[5,20]^2 covers cells 83..117 (two blocks); half a cube per unit: one block
+	out = append(out, desc{Entry: "march", NFun: 2, Cutoff: surfaceOffset, CPU: 2, Fields: []fieldDesc{sphereField([3]int{42, 5, 5}, [3]int{58, 20, 20}, 15)}})
+	out = append(out, desc{Entry: "march", NFun: 1, Cutoff: surfaceOffset, CPU: 0.5, Fields: []fieldDesc{sphereField([3]int{150, 20, 20}, [3]int{250, 100, 100}, 71)}})
+	if thorough {
+		out = append(out, desc{Entry: "march", NFun: 2, Cutoff: planeCutoff(a, 1), MAttr: 1, CPU: 2, Fields: []fieldDesc{sphereField([3]int{42, 5, 5}, [3]int{58, 20, 20}, 15)}})
+		out = append(out, desc{Entry: "march", NFun: 1, Cutoff: surfaceOffset, Fields: []fieldDesc{c3, b2, a}})
+		out = append(out, desc{Entry: "march", NFun: 1, Cutoff: planeCutoff(b, 1), MAttr: 1, Fields: []fieldDesc{c3, b2, a}})
+	}
+	return out
 }
 
 // ---- seam canvases -------------------------------------------------------------------------------------
@@ -708,10 +770,12 @@ func buildPlan(tier string, seed uint64, n int) []desc {
 				for _, alt := range alts {
 					sq := instantiate(e, nn, 1, alt)
 					sq.Seq = true
+					sq.Mesh = meshVariant(e, nn+vi)
 					plan = append(plan, sq)
 					for s := 1; s <= 20; s++ {
 						d := instantiate(e, nn, s, alt)
 						d.Procs, d.Gosched, d.Reps = v.procs, v.gosched, v.reps
+						d.Mesh = meshVariant(e, nn+s+vi) // every topology / attribute mix meets every entry point, n and s
 						d.RaceSub = true
 						plan = append(plan, d)
 					}
@@ -740,6 +804,38 @@ func buildPlan(tier string, seed uint64, n int) []desc {
 			plan = append(plan, sq, d)
 		}
 	}
+	// C2. several goroutines call the same entry point on the same mesh at once: every caller must see the ideal
+	// observation (nothing is shared between calls but the read-only input), race-free under -race
+	for _, e := range entries {
+		for _, nn := range []int{0, 1, 7, 33, 64} {
+			for k, s := range []int{2, 3, runtime.NumCPU()} {
+				d := instantiate(e, nn, s, 2)
+				d.Conc, d.Mesh, d.RaceSub = 3+k%2, meshVariant(e, nn+k), true
+				if k == 2 && nn == 33 {
+					d.Default = true
+				}
+				if thorough {
+					d.Reps, d.Gosched = 6, 1
+				}
+				plan = append(plan, d)
+			}
+		}
+	}
+	// C3. retained results: the attribute a Modify call returned is read back only after further calls of the
+	// same entry point on other meshes of the same and of other sizes
+	for _, e := range entries {
+		if e.Entry != "modify" {
+			continue
+		}
+		for _, nn := range []int{1, 5, 40, 100} {
+			for k, s := range []int{1, 2, 7, runtime.NumCPU()} {
+				d := instantiate(e, nn, s, 3)
+				d.Retain, d.Mesh, d.RaceSub = 2, meshVariant(e, nn+k), k%2 == 1
+				d.Default = k == 3
+				plan = append(plan, d)
+			}
+		}
+	}
 	// D. sampled: larger element counts
 	r := hx.NewRng(seed)
 	for k := 0; k < n; k++ {
@@ -756,6 +852,13 @@ func buildPlan(tier string, seed uint64, n int) []desc {
 			d.RaceSub = (nn < 100000 && k%4 == 1) || (thorough && nn < 400000)
 		}
 		d.Salt = r.Intn(1000)
+		d.Mesh = meshVariant(e, r.Intn(60))
+		if r.Chance(1, 6) {
+			d.Conc = r.Range(2, 4)
+		}
+		if e.Entry == "modify" && r.Chance(1, 4) {
+			d.Retain = r.Range(1, 2)
+		}
 		if thorough {
 			d.Procs = hx.Pick(r, []int{0, 1, 2, 16})
 			d.Gosched = hx.Pick(r, []int{0, 1, 3})
@@ -767,7 +870,7 @@ func buildPlan(tier string, seed uint64, n int) []desc {
 		}
 		if !d.Large {
 			sq := d
-			sq.Seq, sq.S, sq.RaceSub, sq.Reps = true, 1, false, 0
+			sq.Seq, sq.S, sq.RaceSub, sq.Reps, sq.Conc, sq.Retain = true, 1, false, 0, 0, 0
 			plan = append(plan, sq)
 		}
 		plan = append(plan, d)
@@ -777,6 +880,12 @@ func buildPlan(tier string, seed uint64, n int) []desc {
 		// quick: the 8-block canvas is marched by the normal binary only (18 s under -race); its accumulation is
 		// covered under -race by the accumulation-only items below
 		d.RaceSub = thorough || i == 1
+		plan = append(plan, d)
+	}
+	// canvases with several attributes, attributes introduced by a later field, marching an attribute other than the
+	// default one (MarchOnAttribute / MarchOnAttributeParallel), canvases with 2 and 1/2 cubes per unit
+	for i, d := range attrMarch(thorough) {
+		d.RaceSub = thorough && i%3 == 0
 		plan = append(plan, d)
 	}
 	// surfaces whose extremes lie in / next to the seam layer between two blocks
